@@ -1,4 +1,4 @@
 SPECIFICATION Spec
-CONSTANTS N = 2  E = 1  A = 1  I = 1  NL = {0, 1}  EL = {0}  N3 = 1  Q = 1  LxN = 2  LxN3 = 1
+CONSTANTS N = 2  E = 1  A = 1  I = 1  NL = {0, 1}  EL = {0}  N3 = 1  Q = 1  LxN = 1  LxN3 = 1
 INVARIANTS TensorLaws
 CHECK_DEADLOCK FALSE
